@@ -879,6 +879,9 @@ def run(ctx):
 
     def sc_alias_dense(c, rng):
         A, _ = rdense(rng, special=0.1)
+        if A.typecode == "i":
+            # in-place arithmetic on integers near 2^63 would overflow; that is not what this check is about
+            A = matrix([x % 1000 for x in A], A.size, "i")
         tc = A.typecode
         m, n = A.size
         how = rng.choice(["matrix(x)", "+x", "x[:]", "x[:, :]", "x[I]", "x[I, J]", "assignment", "inplace", "matrix(x, size)",
